@@ -291,3 +291,111 @@ def query_sequence(n=1):
 
 
 UNITS.append(query_sequence(1))
+
+
+# ------------------------------------------------------------------------------ findFeaturesAtPysamAlign: annotation of one record
+# "read annotation built on these queries reports exactly the overlapped features": a record overlaps a feature when one of its
+# aligned blocks - pysam get_blocks(): [start, end) - shares a base with the feature's closed interval
+def align_read(n_blocks, base_by_base):
+    def mk(eng, name):
+        from pyvc import stubs as _stubs
+        from pyvc.engine import Sym
+        bl = []
+        prev = None
+        for i in range(n_blocks):
+            s = named(INT, 'block%d_start' % i)
+            if base_by_base:
+                e = Sym(s.z + 2, INT)            # blocks of two bases, so that the per-base method can enumerate them
+            else:
+                e = named(INT, 'block%d_end' % i)
+                eng.assume(e.z > s.z)
+            eng.assume(s.z >= 0 if prev is None else s.z > prev.z)
+            prev = e
+            bl.append((s, e))
+        eng.spec_env['BLOCKS'] = bl
+
+        def pairs(e_, o, matches_only=False, with_seq=False):
+            out, qi = [], 0
+            for s, _ in bl:
+                for d in range(2):
+                    out.append((qi, Sym(s.z + d, INT)))
+                    qi += 1
+            return out
+        _stubs.STUBS['BlockRead'] = {'methods': {'get_blocks': lambda e_, o: list(bl), 'get_aligned_pairs': pairs},
+                                     'props': {'reference_name': lambda e_, o: 'ctg'}, 'setters': {}}
+        o = Obj('BlockRead', {})
+        o.vc_immutable = True
+        return o
+    return mk
+
+
+OVERLAPS = 'any([(max(b[0], F[i][0]) <= min(b[1] - 1, F[i][1])) for b in BLOCKS])'
+ALIGN_SPEC = {
+    'exactly_the_features_an_aligned_block_overlaps':
+        'all(((F[i][0], F[i][1], F[i][2], ("+" if F[i][3] else "-"), None) in result) == '
+        '(%s and (strand is None or strand == ("+" if F[i][3] else "-"))) for i in range(len(F)))' % OVERLAPS,
+    'nothing_else': 'all(any(r[2] == F[i][2] for i in range(len(F))) for r in result)',
+}
+
+
+def pysam_align(method, n_blocks, n=1):
+    src = ['fc = FeatureContainer()']
+    for i in range(n):
+        src.append('fc.addFeature("ctg", F[%d][0], F[%d][1], F[%d][2], "+" if F[%d][3] else "-")' % (i, i, i, i))
+    src += ['fc.sort()', 'result = fc.findFeaturesAtPysamAlign(READ, strand, %d)' % method, 'return result']
+    return Contract(
+        PROP, FF + '::FeatureContainer', name='findFeaturesAtPysamAlign[method %d, %d blocks, %d features]' % (method, n_blocks, n),
+        harness='\n'.join(src), params={'F': feats(n), 'READ': align_read(n_blocks, method == 0), 'strand': 'none'},
+        cases=[{}, {'strand': ('const', '+')}],
+        setup=lambda eng: eng.ghost.clear(), ensures=ALIGN_SPEC, raises={},
+        bounded='%d features on one contig, a record of %d aligned blocks%s (symbolic coordinates)' % (
+            n, n_blocks, ' of two bases' if method == 0 else ''), max_paths=40000,
+        assumptions=['pysam get_blocks(): half-open [start, end) per aligned block; get_aligned_pairs(matches_only=True): one pair '
+                     'per aligned base (A4)'])
+
+
+def pysam_align_replay(method):
+    def replay(inputs, clause):
+        """real FeatureContainer and a real pysam record with the model's blocks (N gaps between them) and features"""
+        import pysam
+        from pyvc.contract import import_real
+        FC = import_real(FF, 'FeatureContainer')
+        g = inputs.get('ghost') or {}
+        blocks = [(int(a), int(b)) for a, b in (g.get('BLOCKS') or [])]
+        F = inputs.get('F') or []
+        if not blocks or any(b <= a for a, b in blocks) or blocks[-1][1] > 10 ** 6:
+            return {'status': 'no-input', 'note': 'blocks not realisable'}
+        fc = FC()
+        for s, e, nm, plus in F:
+            fc.addFeature('ctg', int(s), int(e), nm, '+' if plus else '-')
+        fc.sort()
+        h = pysam.AlignmentHeader.from_dict({'HD': {'VN': '1.6'}, 'SQ': [{'SN': 'ctg', 'LN': 2 * 10 ** 6}]})
+        a = pysam.AlignedSegment(h)
+        ops, pos = [], blocks[0][0]
+        for s, e in blocks:
+            if s > pos:
+                ops.append((3, s - pos))
+            ops.append((0, e - s))
+            pos = e
+        n = sum(l for op, l in ops if op == 0)
+        if n > 5000:
+            return {'status': 'no-input', 'note': 'record too long'}
+        a.query_name, a.reference_id, a.reference_start, a.cigartuples, a.flag = 'q', 0, blocks[0][0], ops, 0
+        a.query_sequence = 'A' * n
+        a.query_qualities = pysam.qualitystring_to_array('I' * n)
+        strand = inputs.get('strand')
+        got = sorted(tuple(x) for x in fc.findFeaturesAtPysamAlign(a, strand, method))
+        want = sorted((int(s), int(e), nm, '+' if plus else '-', None) for s, e, nm, plus in F
+                      if any(max(b0, int(s)) <= min(b1 - 1, int(e)) for b0, b1 in blocks) and (strand is None or strand == ('+' if plus else '-')))
+        obs = {'outcome': 'return', 'value': [list(x) for x in got], 'expected': [list(x) for x in want],
+               'record': {'start': a.reference_start, 'cigar': a.cigarstring, 'blocks': a.get_blocks()}}
+        if got != want:
+            return {'status': 'confirmed', 'observed': obs, 'failed': [{'clause': clause}]}
+        return {'status': 'not-reproduced', 'observed': obs}
+    return replay
+
+
+for _m, _nb in ((1, 1), (1, 2), (0, 1)):
+    _u = pysam_align(_m, _nb)
+    _u.replay = pysam_align_replay(_m)
+    UNITS.append(_u)
